@@ -898,7 +898,7 @@ def gen_cases(ctx):
             yield 'setunits', {'spec': spec, 'group': grp, 'neuron': gen_neuron(r, r.choice(KINDS), nmax=3)}
     for spec in BAD_UNITS:
         yield 'setunits', {'spec': spec, 'group': None, 'neuron': small}
-    for _ in range(ctx.budget(20, 300)):
+    for _ in range(ctx.budget(40, 400)):
         mags = [r.choice([1, 2, 4, 8, 0.5, 40, 3, 10, 0.25]) for _ in range(3)]
         un = r.choice(['nm', 'um', 'mm', 'nanometer', 'microns', 'micron', 'm'])
         form = r.choice(['tuple-str', 'qarr', 'tuple-num', 'str', 'qty'])
@@ -914,19 +914,19 @@ def gen_cases(ctx):
             spec = ['qty', mags[0], un.replace('microns', 'um').replace('micron', 'um')]
         yield 'setunits', {'spec': spec, 'group': None, 'neuron': small}
     # (b) arithmetic
-    for i in range(ctx.budget(420, 6000)):
+    for i in range(ctx.budget(900, 10000)):
         kind = KINDS[i % 4]
         op = r.choice(['mul', 'mul', 'div', 'div', 'add', 'sub'])
         nd = gen_neuron(r, kind)
         yield 'arith', {'neuron': nd, 'op': op, 'factor': gen_factor(r, kind, op in ('mul', 'div')),
                         'inplace': r.random() < 0.25}
     # (c) convert_units
-    for i in range(ctx.budget(120, 1500)):
+    for i in range(ctx.budget(250, 2500)):
         kind = KINDS[i % 4]
         yield 'convert', {'neuron': gen_neuron(r, kind), 'target': list(r.choice(TARGETS[:10] if i % 7 else TARGETS)),
                           'inplace': r.random() < 0.3}
     # (d) map_units
-    for i in range(ctx.budget(160, 2000)):
+    for i in range(ctx.budget(300, 3000)):
         kind = KINDS[i % 4] if i % 3 else 'T'
         if r.random() < 0.3:
             mag = r.choice([1, 2, 3, 7, 8, 16, 0.5, 0.3, 10, 12.5])
@@ -938,12 +938,12 @@ def gen_cases(ctx):
         yield 'map', {'neuron': nd, 'length': L}
     # (e) string-valued distance arguments
     fns = ['prune_twigs', 'prune_at_depth', 'resample', 'heal', 'geodesic', 'prune_twigs_exact']
-    for i in range(ctx.budget(36, 400)):
+    for i in range(ctx.budget(72, 600)):
         u, _ = r.choice(STR_UNITS)
         yield 'strarg', {'neuron': tree_desc(r), 'fn': fns[i % len(fns)], 'units': u, 'k': r.choice([0.5, 2, 8, 0.125, 4]),
                          'steps': r.randint(1, 14), 'fmt': r.randint(0, 4)}
     # (f) metadata sweep
-    for rep in range(ctx.budget(2, 12)):
+    for rep in range(ctx.budget(3, 16)):
         for kind in KINDS:
             for (name, cls, _) in SWEEP[kind]:
                 u = SWEEP_UNITS[rep % len(SWEEP_UNITS)] if rep < len(SWEEP_UNITS) else r.choice(SWEEP_UNITS)
